@@ -26,6 +26,7 @@ func runC08(r *Run, verifDir string) {
 	c08K4OneResponse(r)
 	c08K5InvalidMessage(r)
 	c.k6Releasable()
+	c08K7AcceptLoop(r)
 }
 
 // ---------------------------------------------------------------- K3
@@ -733,5 +734,113 @@ func c16H5(r *Run) {
 		default:
 			r.Bad("C16.H5", key, g.in.Pos(), "goroutine %s is not joined by Shutdown", g.target)
 		}
+	}
+}
+
+// ---------------------------------------------------------------- K7
+
+// c08K7AcceptLoop: the accept loop hands each accepted connection straight to its own goroutine; it performs no
+// per-connection work (handshake, read, hook) that a silent or slow client could use to stall all other clients.
+func c08K7AcceptLoop(r *Run) {
+	p := r.P
+	r.Rule("C08.K7", "the accept loop only accepts, counts and spawns: the accepted connection flows nowhere but into `go handleConn`", 1)
+	sv := p.Func("kmipserver", "Server", "Serve")
+	if sv == nil {
+		r.Unk("C08.K7", "kmipserver.Server.Serve/accept-loop", token.NoPos, "anchor missing")
+		return
+	}
+	var accept *ssa.Call
+	allInstrs(sv, func(in ssa.Instruction) {
+		if c, ok := in.(*ssa.Call); ok && c.Call.IsInvoke() && c.Call.Method.Name() == "Accept" {
+			accept = c
+		}
+	})
+	if accept == nil {
+		r.Unk("C08.K7", "kmipserver.Server.Serve/accept-loop", sv.Pos(), "Accept call not found")
+		return
+	}
+	// values denoting the accepted connection
+	isConn := map[ssa.Value]bool{}
+	for _, ref := range *accept.Referrers() {
+		if ex, ok := ref.(*ssa.Extract); ok && ex.Index == 0 {
+			isConn[ex] = true
+		}
+	}
+	for changed := true; changed; {
+		changed = false
+		allInstrs(sv, func(in ssa.Instruction) {
+			v, ok := in.(ssa.Value)
+			if !ok || isConn[v] {
+				return
+			}
+			switch x := in.(type) {
+			case *ssa.TypeAssert:
+				if isConn[x.X] {
+					isConn[v] = true
+					changed = true
+				}
+			case *ssa.Extract:
+				if isConn[x.Tuple] {
+					isConn[v] = true
+					changed = true
+				}
+			case *ssa.ChangeInterface:
+				if isConn[x.X] {
+					isConn[v] = true
+					changed = true
+				}
+			case *ssa.MakeInterface:
+				if isConn[x.X] {
+					isConn[v] = true
+					changed = true
+				}
+			case *ssa.Phi:
+				for _, e := range x.Edges {
+					if isConn[e] {
+						isConn[v] = true
+						changed = true
+					}
+				}
+			}
+		})
+	}
+	bad := token.NoPos
+	what := ""
+	spawned := false
+	allInstrs(sv, func(in ssa.Instruction) {
+		switch x := in.(type) {
+		case *ssa.Go:
+			for _, a := range x.Call.Args {
+				if isConn[a] {
+					spawned = true
+				}
+			}
+		case *ssa.Call:
+			uses := isConn[x.Call.Value]
+			for _, a := range x.Call.Args {
+				if isConn[a] {
+					uses = true
+				}
+			}
+			if uses {
+				bad = x.Pos()
+				what = callID(&x.Call).String()
+			}
+		case *ssa.Defer:
+			for _, a := range x.Call.Args {
+				if isConn[a] {
+					bad = x.Pos()
+					what = "defer " + callID(&x.Call).String()
+				}
+			}
+		}
+	})
+	switch {
+	case bad.IsValid():
+		r.Bad("C08.K7", "kmipserver.Server.Serve/accept-loop", bad, "the accept loop itself calls %s on the accepted connection before handing it to a goroutine: a client that stalls there (e.g. never sends its TLS ClientHello) blocks Accept for every other client", what)
+	case !spawned:
+		r.Bad("C08.K7", "kmipserver.Server.Serve/accept-loop", sv.Pos(), "the accepted connection is not handed to its own goroutine")
+	default:
+		r.OK("C08.K7", "kmipserver.Server.Serve/accept-loop", accept.Pos(), "the accepted connection is used only as the argument of `go handleConn`")
 	}
 }
